@@ -47,6 +47,7 @@ NUMERIC = {
     "long": ["1"], "byte": ["1", "128"], "nonNegativeInteger": ["0", "-1"],
 }
 
+XML_SIGMA = ["<", ">", "&", "]", "\r", "\n", "a", ";"]
 IRIS = [EX + "dir/x", EX + "dir/doc#frag", EX + "dir/doc", EX + "dir/", EX + "dir/sub/y", EX + "dir/doc?q=1", EX + "a", EX + "b#c", EX + "1digit", EX + "end.", EX + "a(b)", EX + "a%20b", EX + "ns/", EX, "http://other.org/x/y",
         str(RDF.type), str(RDF.nil), str(RDF.first), str(XSD.string), "urn:x:y", "http://ex.org/é", EX + "a_b-c", EX + "a:b", "http://ex.org"]
 
@@ -65,6 +66,17 @@ def term_table(n, thorough):
     for dt, forms in NUMERIC.items():
         for f in forms:
             out.append(L(f, dt=str(XSD[dt])))
+    # strings over the characters that matter to the XML-based syntaxes (markup, CDATA end, entity start, line ends)
+    for s in strings_upto(3, XML_SIGMA):
+        if s:
+            out.append(L(s))
+    for s in strings_upto(2, XML_SIGMA):
+        if s:
+            out.append(L(s, lang="en"))
+            out.append(L(s, dt=EX + "dt"))
+    # datatype IRIs that need escaping or cannot be abbreviated
+    for dt in (EX + "dt?a=1&b=2", EX + "dt#x", "urn:dt:x", EX + "dt'q", EX + "1dt", EX + "dir/dt", EX):
+        out.append(L("x", dt=dt))
     out.append(L("<a/>", dt=str(RDF.XMLLiteral)))
     out.append(L("x", lang="en-US"))
     out.append(L("x", lang="EN"))
@@ -81,6 +93,7 @@ def embeddings(t):
            # not the head member: list walks treat the head and the later cells differently
            ("list-later-member", [(A, P, B("b1")), (B("b1"), FIRST, A), (B("b1"), REST, B("b2")), (B("b2"), FIRST, t), (B("b2"), REST, B("b3")),
                                   (B("b3"), FIRST, t), (B("b3"), REST, NIL)])]
+    out.append(("type-object", [(A, ["I", str(RDF.type), None, None], t), (A, P, I("b"))]))
     if t[0] == "I":
         out.append(("subject", [(t, P, A)]))
         out.append(("predicate", [(A, t, I("b"))]))
@@ -180,7 +193,7 @@ def _terms_batch(arg):
 
 def topo_universe():
     subs = [I("a"), B("b1"), B("b2"), B("b3")]
-    preds = [I("p"), FIRST, REST]
+    preds = [I("p"), FIRST, REST, ["I", str(RDF.type), None, None]]
     objs = [I("a"), B("b1"), B("b2"), B("b3"), NIL, L("x")]
     return [(s, p, o) for s in subs for p in preds for o in objs]
 
@@ -248,6 +261,33 @@ def topologies(k):
     return out
 
 
+def list_perturbations(maxdev):
+    """Well-formed lists of 2 and 3 cells (members: IRI, literal, blank node with a property, nested list) plus every set of <= maxdev extra triples
+    from a menu that makes the list shared, decorated, forked or broken: the shapes list abbreviation must recognise - or must leave alone."""
+    A, Bn, P, Q = I("a"), I("b"), I("p"), I("q")
+    c1, c2, c3, x = B("c1"), B("c2"), B("c3"), B("x")
+    TYPE = ["I", str(RDF.type), None, None]
+    LIST = ["I", str(RDF.List), None, None]
+    bases = [
+        [(A, P, c1), (c1, FIRST, L("1", dt=str(XSD.integer))), (c1, REST, c2), (c2, FIRST, L("0", dt=str(XSD.integer))), (c2, REST, NIL)],
+        [(A, P, c1), (c1, FIRST, A), (c1, REST, c2), (c2, FIRST, L("")), (c2, REST, c3), (c3, FIRST, Bn), (c3, REST, NIL)],
+        [(A, P, c1), (c1, FIRST, x), (c1, REST, c2), (c2, FIRST, L("y", lang="en")), (c2, REST, NIL), (x, Q, L("z"))],
+    ]
+    menu = [(A, Q, c2), (Bn, P, c2), (A, Q, c1), (c2, P, L("extra")), (c2, TYPE, LIST), (c1, TYPE, LIST), (c2, FIRST, L("2", dt=str(XSD.integer))), (c2, REST, c1),
+            (c2, REST, A), (c1, FIRST, L("0", dt=str(XSD.integer))), (c2, Q, c2), (NIL, P, A), (c1, P, c1), (x, Q, c2)]
+    out = []
+    seen = set()
+    for base in bases:
+        for r in range(0, maxdev + 1):
+            for extra in itertools.combinations(menu, r):
+                triples = list(base) + [t for t in extra if t not in base]
+                c = canon_rows(rows_of(triples))
+                if c not in seen:
+                    seen.add(c)
+                    out.append(triples)
+    return out
+
+
 def _topo_batch(arg):
     graphs, formats = arg
     viols = []
@@ -255,9 +295,12 @@ def _topo_batch(arg):
     nontriv = 0
     for triples in graphs:
         tc = topo_class(triples)
+        typed_cell = any(t[1][1] == str(RDF.type) and t[2][1] == str(RDF.List) and any(u[0] == t[0] and u[1] in (FIRST, REST) for u in triples) for t in triples)
         for fmt in formats:
             if fmt in ("xml", "pretty-xml") and not xml_expressible_strict(triples):
                 continue
+            if fmt == "json-ld" and typed_cell:
+                continue  # the JSON-LD "Serialize RDF as JSON-LD" algorithm folds rdf:type rdf:List of a list cell into @list by specification
             for opt in ("plain", "base+prefixes"):
                 n += 1
                 if tc != "bnodes=0":
@@ -295,6 +338,9 @@ def run(ctx):
                 seen.add(c)
                 extra.append(list(sub))
         topo += extra
+    lp = list_perturbations(2 if thorough else 1)
+    topo += lp
+    ctx.cov["list_perturbations"] = len(lp)
     res = R.pmap(_topo_batch, [(sh, FORMATS) for sh in R.shards(topo, ctx.jobs * 8)], ctx.jobs)
     for viols, n, nt in res:
         ctx.extend(viols)
@@ -304,8 +350,8 @@ def run(ctx):
     ctx.cov["exhaustive"] = True
     ctx.cov["rule"] = ("(A) every term of the table (all strings of length <=%d over a 12-char alphabet x {plain, @en, xsd:string, custom datatype}, numeric/"
                        "boolean/date lexical table, IRI table) embedded as object of an IRI, of a blank node, as head and as later (repeated) list member (IRIs also as subject / predicate) x 8 "
-                       "formats x {plain, namespace-like base + prefixes, file-like base + prefixes}; (B) every graph with <=%d triples over {A,b1,b2,b3,nil} x {P,first,rest} x one literal, one per blank-"
-                       "node renaming class. Non-trivial: term needs escaping/shorthand/splitting, or graph has a blank node." % (3 if thorough else 2, 3 if thorough else 2))
+                       "formats x {plain, namespace-like base + prefixes, file-like base + prefixes}; (B) every graph with <=%d triples over {A,b1,b2,b3,nil} x {P,first,rest,rdf:type} x one literal, one per blank-"
+                       "node renaming class, and three well-formed lists with every set of <=1 (quick) / 2 (thorough) extra triples from a 14-entry menu (shared, typed, forked, broken cells). Non-trivial: term needs escaping/shorthand/splitting, or graph has a blank node." % (3 if thorough else 2, 3 if thorough else 2))
     ctx.sample({"triples": [[I("a"), I("p"), L('"\n')]], "format": "turtle", "option": "plain"})
     ctx.assumptions += ["RDF/XML is only given predicates that split into namespace + NCName; literal subjects and blank-node predicates are not generated",
                         "HexTuples compared modulo simple literal = xsd:string; NORMALIZE_LITERALS at its default", "5 s horizon for the termination clause"]
@@ -322,7 +368,7 @@ def replay(ctx, case):
         tc = topo_class(triples)
     else:
         # the varied term is the object of the last triple, or the subject / predicate of the only one
-        tc = term_class(triples[0][0] if emb == "subject" else triples[0][1] if emb == "predicate" else triples[1][2] if emb == "list-member" else triples[3][2] if emb == "list-later-member" else triples[-1][2])
+        tc = term_class(triples[0][0] if emb == "subject" else triples[0][1] if emb == "predicate" else triples[1][2] if emb == "list-member" else triples[3][2] if emb == "list-later-member" else triples[0][2] if emb == "type-object" else triples[-1][2])
     return [{"sig": "%s|%s|%s" % (case["format"], v[0], tc), "case": case, "detail": v[1]}]
 
 
